@@ -1293,6 +1293,14 @@ def check_site(pr, s, assumed=None):
                 if ia and ic and ia[0] >= 0 and ic[0] >= 0 and ia[1] * ic[1] <= r[1]:
                     return True, "product bounded by %d" % (ia[1] * ic[1])
                 return False, "non-linear product %s * %s" % (show(a)[:40], show(c)[:40])
+        elif op in ("Shl", "Shr"):
+            # the check of a shift is on the shift amount only: it must be smaller than the width of the shifted type
+            bits = {"u8": 8, "i8": 8, "u16": 16, "i16": 16, "u32": 32, "i32": 32, "u64": 64, "i64": 64, "usize": 64, "isize": 64,
+                    "u128": 128, "i128": 128}.get(ty)
+            ic = pr.interval(c)
+            if bits and ic is not None and 0 <= ic[0] and ic[1] < bits:
+                return True, "shift amount in [%d, %d] < %d" % (ic[0], ic[1], bits)
+            return False, "shift amount %s not provably below the width of %s" % (show(c)[:40], ty)
         else:
             return False, "unsupported overflow op %s" % op
         ok1, w1 = pr.prove_nonneg(res.add(Lin(r[0]), -1), bb)          # res >= min
